@@ -400,6 +400,13 @@ class FitEngine(Engine):
                 scn["interleave"] = {"sweep": [i - half, half], "other_seed": scn["truth"]["seed"], "depth": depth}
             return scn
         scn = generate(rng, tier, i)
+        if rng.random() < 0.15:
+            # single precision caller: estimates and scalar width are float32 variables (the
+            # scenario keeps their exact float32 values so that every oracle sees the same numbers)
+            scn["arg_dtype"] = "float32"
+            scn["estimates"] = [float(np.float32(e)) for e in scn["estimates"]]
+            if scn["windows"]["mode"] == "scalar":
+                scn["windows"]["width"] = float(np.float32(scn["windows"]["width"]))
         if rng.random() < 0.12:
             scn["interleave"] = {"frac": rng.random(), "where": rng.choice(["site", "site", "line"]),
                                  "other_seed": scn["truth"]["seed"] if rng.random() < 0.3 else rng.randrange(1 << 30)}
@@ -411,9 +418,11 @@ class FitEngine(Engine):
         from scippneutron.peaks import FitParameters, FitRequirements, fit_peaks
 
         u = scn["coord_unit"]
-        est = sc.array(dims=["x"], values=np.asarray(estimates, dtype=float), unit=u)
+        # a caller working in single precision has float32 estimates and widths too (exact in float64)
+        adt = scn.get("arg_dtype", "float64")
+        est = sc.array(dims=["x"], values=np.asarray(estimates, dtype=float).astype(adt), unit=u)
         if isinstance(windows, dict) and windows["mode"] == "scalar":
-            win = sc.scalar(float(windows["width"]), unit=u)
+            win = sc.scalar(float(windows["width"]), unit=u, dtype=adt)
         else:
             rg = windows["ranges"] if isinstance(windows, dict) else windows
             win = sc.array(dims=["x", "range"], values=np.asarray(rg, dtype=float).reshape(-1, 2), unit=u)
@@ -1019,7 +1028,7 @@ class FitEngine(Engine):
             del c["interleave"]
             yield c
         for key, val in (("coord_unit", "one"), ("data_unit", "one"), ("coord_dtype", "float64"),
-                         ("results_as", "list")):
+                         ("results_as", "list"), ("arg_dtype", "float64")):
             if s.get(key, val) != val:
                 c = copy.deepcopy(s)
                 c[key] = val
